@@ -6,5 +6,4 @@ scratch=$(mktemp -d /tmp/mut-XXXXXX)
 trap 'rm -rf "$scratch"' EXIT
 mkdir -p "$scratch/repo" && rsync -a --exclude tests --exclude "darwin*" --exclude "windows*" --exclude __pycache__ /repo/wntr "$scratch/repo/" && mkdir -p "$scratch/repo/examples" && rsync -a /repo/examples/networks "$scratch/repo/examples/"
 cd "$scratch/repo" && git init -q . && git apply "$patch" || { echo "PATCH DOES NOT APPLY"; exit 3; }
-cd /verif && VERIF_REPO="$scratch/repo" VERIF_OUT="$scratch/out" ./check "$prop" --tier "$tier" 2>&1 | grep -v dgstrf | cut -c1-400 | tail -${MUT_LINES:-8}
-echo "exit=${PIPESTATUS[0]}"
+cd /verif && VERIF_REPO="$scratch/repo" VERIF_OUT="$scratch/out" ./check "$prop" --tier "$tier" 2>&1 | grep -v dgstrf | cut -c1-400 | tail -${MUT_LINES:-8}; st=${PIPESTATUS[0]}; if [ -n "${MUT_KEEP:-}" ]; then mkdir -p "$MUT_KEEP"; for f in "$scratch"/out/replays/*.json; do [ -f "$f" ] && cp "$f" "$MUT_KEEP/"; done; fi; echo "exit=$st"; exit 0
